@@ -117,7 +117,7 @@ func surfaceStream() *hx.Stream {
 	}
 	n := 250
 	if cfg.Thorough() {
-		n = 4000
+		n = 10000
 	}
 	for i := 0; i < n; i++ {
 		w, h := pick(small), pick(small)
@@ -256,7 +256,7 @@ func renderStream() *hx.Stream {
 	s.ShardMax = 100
 	n := 400
 	if cfg.Thorough() {
-		n = 6000
+		n = 15000
 	}
 	for i := 0; i < n; i++ {
 		nextID = 0
@@ -273,7 +273,7 @@ func renderStream() *hx.Stream {
 func main() {
 	os.Unsetenv("COLORTERM")
 	cfg = hx.ParseFlags()
-	streams := []*hx.Stream{surfaceStream(), renderStream(), drawStream()}
-	cfg.Write("C14", "surface: NewSurface(w,h) + a sequence of WriteCell calls (sizes 0..40 and around/above 65535 cells; coordinates inside, ==size, size+1, 65535, random), non-trivial = at least one write inside the surface; render: random surface trees (depth <= 3, <= 12 children per node, negative and overflowing offsets, tied and distinct z) rendered by Surface.render into the root window of a real Vaxis on a fake console, non-trivial = the tree has children; draw: Draw of Text/RichText (soft and hard wrap), Center, Button, TextField, list.Dynamic (fresh state) and nestings over Max in {0,1,2,3,7,255,256,65534,65535}^2 (products capped for the allocating widgets) and generated contents (empty, multi-line, wide, combining, longer/taller than the maximum, >65535 lines or columns), non-trivial = content does not fit the maximum or the widget is a container",
+	streams := []*hx.Stream{surfaceStream(), renderStream(), drawStream(), paintStream()}
+	cfg.Write("C14", "surface: NewSurface(w,h) + a sequence of WriteCell calls (sizes 0..40 and around/above 65535 cells; coordinates inside, ==size, size+1, 65535, random), non-trivial = at least one write inside the surface; render: random surface trees (depth <= 3, <= 12 children per node, negative and overflowing offsets, tied and distinct z) rendered by Surface.render into the root window of a real Vaxis on a fake console, non-trivial = the tree has children; draw: Draw of Text/RichText (soft and hard wrap), Center, Button, TextField, list.Dynamic (fresh state) and nestings over Max in {0,1,2,3,7,255,256,65534,65535}^2 (products capped for the allocating widgets) and generated contents (empty, multi-line, wide, combining, longer/taller than the maximum, >65535 lines or columns), non-trivial = content does not fit the maximum or the widget is a container; paint: App.layout + render — Draw of a generated widget tree with Max = window size, rendered into the root window of a real Vaxis (1..24 x 1..8), non-trivial = some screen cell is painted",
 		streams, drawExtra, nil)
 }
